@@ -77,3 +77,26 @@ def norm_for_parse(t):
             return ("lit", "duration", x[2].upper())
         return x
     return map_term(f, t)
+
+
+def fingerprint(node):
+    """Iterative structural fingerprint of a library AST (safe for very deep trees)."""
+    import hashlib
+    h = hashlib.blake2b(digest_size=16)
+    stack = [node]
+    n = 0
+    while stack:
+        x = stack.pop()
+        n += 1
+        if dataclasses.is_dataclass(x) and not isinstance(x, type):
+            h.update(b"<" + type(x).__name__.encode())
+            fs = dataclasses.fields(x)
+            stack.append(">")
+            for f in reversed(fs):
+                stack.append(getattr(x, f.name))
+        elif isinstance(x, (list, tuple)):
+            h.update(b"[%d" % len(x))
+            stack.extend(reversed(x))
+        else:
+            h.update(repr(x).encode("utf-8", "surrogatepass") + b";")
+    return h.hexdigest(), n
